@@ -56,3 +56,8 @@ def bits_after_other_view(var, k1, newraw, key, value):
 def subscribe_n(pm, n):
     for i in range(n):
         pm.subscribe()
+
+
+def save_then_read(map_a, map_b):
+    map_a.save()
+    map_b.read()
